@@ -61,7 +61,8 @@ ReplaceRule       == (l > 0 /\ cur.op # "recheck") =>
 MIOCap            == l > 0 => (MIOCapP(Post) /\ (cur.mode \in {"mio", "pop"} => MIOCapNP(Post, capn)))
 \* the archive owns its tests: outside of archive calls ("observe": the archive found changed between
 \* two calls, "recheck": after a step of the search loop) nobody replaced or edited an archived chromosome
-ArchiveOwns       == (l > 1 /\ cur.op \in {"observe", "recheck"}) => PostC = PreC
+\* (n = -1: the recorder had stopped recording archive calls before this view was taken)
+ArchiveOwns       == (l > 1 /\ cur.op \in {"observe", "recheck"} /\ cur.n # -1) => PostC = PreC
 MIOCoveredOne     == l > 0 => (MIOCoveredOneP(Post) /\ MIOStaysP(Pre, Post))
 CoveredConsistent == l > 0 => CoveredConsistentP(Post)
 
